@@ -1168,7 +1168,7 @@ def parts(tier):
                    "rw:rdata-relative-under-mid-origin": 0 if q else 50, "rw:out-of-zone-inherited": 5 if q else 80,
                    "cname-conflict-refused": 30 if q else 500, "cname-conflict-refused:dnssec-type": 15 if q else 250, "origin-check-refused": 30 if q else 500,
                    "owner:hostile": 100 if q else 1500, "owner:dollar": 30 if q else 400,
-                   "out-of-zone-ignored": 50 if q else 1000, "read_rrsets": 200 if q else 4000, "origin-from-file": 50 if q else 1000})
+                   "out-of-zone-ignored": 50 if q else 1000, "read_rrsets": 200 if q else 4000, "origin-from-file": 35 if q else 700})
     for f in _FACTORIES:
         rs_req["factory:" + f] = 300 if q else 5000
     rs_req.update({"relativize:True": 300 if q else 5000, "relativize:False": 300 if q else 5000})
